@@ -157,6 +157,21 @@ def model_stage(pid, m, tier, seed):
             "cfg": cfg, "module": m["module"]}
 
 
+def proof_stage(pid, pr):
+    """Apalache obligations of an inductive-invariant proof: each must end with 'The outcome is: NoError'.
+    A failing obligation means the specification itself (which the replay binds to the code) admits a bad state."""
+    outdir = os.path.join(WORK, "apalache", pid)
+    t0 = time.time()
+    for ob in pr["obligations"]:
+        cmd = ["timeout", str(pr.get("timeout", 900)), "apalache-mc", "check", f"--out-dir={outdir}", "--run-dir=" + os.path.join(outdir, "run")] + ob + [pr["module"]]
+        r = subprocess.run(cmd, cwd=SPEC, stdout=subprocess.PIPE, stderr=subprocess.STDOUT, text=True)
+        if "The outcome is: NoError" not in r.stdout:
+            tool_error(f"Apalache obligation {' '.join(ob)} of {pr['module']} not discharged (rc={r.returncode}): {r.stdout[-600:]}")
+    shutil.rmtree(outdir, ignore_errors=True)
+    log(f"proof {pr['module']}: {len(pr['obligations'])} Apalache obligation(s) discharged in {time.time()-t0:.1f}s")
+    return {"module": pr["module"], "obligations": [" ".join(o) for o in pr["obligations"]], "wall_s": time.time() - t0}
+
+
 def replay_stage(pid, m, ms, tier):
     trace = os.path.join(WORK, f"{pid}_{m['name']}_{tier}.trace")
     summ = os.path.join(WORK, f"{pid}_{m['name']}_{tier}.sum")
@@ -324,6 +339,7 @@ def main():
             replayed += s["events"]
     for d in P.get("drivers", []):
         traces += driver_stage(pid, d, tier, seed)
+    proofs = [proof_stage(pid, pr) for pr in P.get("proofs", [])]
 
     # validate all traces (parallel JVMs, one worker each)
     vprops = P.get("validate", [pid])
@@ -429,9 +445,10 @@ def main():
             "rule": P.get("rule", "every recorded instruction is one evaluation; non-trivial = successful instruction; distinct by (instruction, result)"),
             "models": [{k: m[k] for k in ("name", "module", "cfg", "states", "transitions", "edges", "wall_s")} for m in mstats],
             "replayed_model_transitions": replayed,
+            "apalache_proofs": proofs,
             "spec_drift": drift,
             "known_findings_hit": sorted(known_hits.keys()),
-            "checker_cmd": "tools/tlc.sh (TLC 1.8.0 + verif.BigOverrides) on spec/*.tla; harness/target/debug/hx",
+            "checker_cmd": "tools/tlc.sh (TLC 1.8.0 + verif.BigOverrides) on spec/*.tla; harness/target/debug/hx" + ("; apalache-mc check (inductive invariant)" if proofs else ""),
             "trusted_base": ["TLC", "CommunityModules Json/IOUtils", "verif.BigOverrides (java.math.BigInteger)", "hx mini-runtime and projection", "tools/check.py"],
         },
         "assumptions": P.get("assumptions", []) + [
